@@ -94,7 +94,7 @@ static std::string txt(double v) {
 // ---------------------------------------------------------------------------------------------
 struct Row { double y, B, mu; };                    // PVTO: y = p;  PVTG: y = Rv
 struct Branch { double x; std::vector<Row> rows; }; // PVTO: x = Rs; PVTG: x = pg.  rows[0] is the saturated state
-struct PvtxTab { std::vector<Branch> br; bool defaulted = false; bool strictlyIncreasing = true; };
+struct PvtxTab { std::vector<Branch> br; bool defaulted = false; bool strictlyIncreasing = true; bool dryFirst = false; };
 struct PvdTab { std::vector<Row> rows; };           // y = p
 struct CcTab { double pref, bref, c, mu, cv; bool defaulted = false; };
 
@@ -150,13 +150,16 @@ static PvtxTab genPvtg(Rng& rng, const Units& u) {
     const bool plateaus = rng.chance(0.1);      // saturated Rv not strictly increasing (constant stretches)
     double p = rng.uniform(10.0, 80.0);
     double rv = rng.uniform(1e-5, 1e-4);        // sm3/sm3
+    // a gas that is dry at the lowest pressure node: saturated Rv = 0 there (the guide of the interpolation starts at zero)
+    const bool dryFirstNode = nsat >= 3 && rng.chance(0.12);
+    if (dryFirstNode) { rv = 0.0; t.dryFirst = true; }
     double mu = rng.uniform(0.01, 0.02);
     for (int i = 0; i < nsat; ++i) {
         Branch b;
         b.x = num(p * 1e5 / u.p);
         double B = rng.uniform(0.8, 1.2) / p;   // rm3/sm3
         b.rows.push_back({num(rv / u.rv), num(B / u.rv), num(mu)});
-        int nu = undersatCount(rng, i == nsat - 1);
+        int nu = (dryFirstNode && i == 0) ? 0 : undersatCount(rng, i == nsat - 1);
         double rvu = rv, Bu = B, muu = mu;
         for (int k = 0; k < nu; ++k) {
             rvu *= rng.uniform(0.3, 0.9);
@@ -167,7 +170,7 @@ static PvtxTab genPvtg(Rng& rng, const Units& u) {
         }
         t.br.push_back(b);
         p += rng.uniform(5.0, 100.0);
-        if (plateaus && rng.chance(0.5)) t.strictlyIncreasing = false;    // rv unchanged
+        if (plateaus && rng.chance(0.5) && !(dryFirstNode && i == 0)) t.strictlyIncreasing = false;    // rv unchanged (a second dry node would need undersaturated rows below Rv = 0)
         else rv += rng.uniform(1e-5, 2e-4);
         mu *= rng.uniform(1.0, 1.3);
     }
@@ -800,6 +803,7 @@ int main(int argc, char** argv) {
                 const PvtxTab& t = cs.pvtg[r];
                 rep.cover("PVTG_saturated_nodes", std::to_string(t.br.size()));
                 if (t.defaulted) rep.cover("defaulted_region_table", "PVTG");
+                if (t.dryFirst) rep.count("PVTG_tables_dry_at_the_first_pressure_node");
                 checkLive(c, rng, pvt, t, false,
                           [&](const auto& p, const auto& R) { return pvt.inverseFormationVolumeFactor(r, tempOf(p), p, R, zeroOf(p)); },
                           [&](const auto& p, const auto& R) { return pvt.viscosity(r, tempOf(p), p, R, zeroOf(p)); },
